@@ -16,7 +16,7 @@
     on a manifest reference whose loaded trie is [erase m]. *)
 From Coq Require Import List NArith ZArith Bool Lia Permutation.
 Import ListNotations.
-Require Import Aurora.Consts Aurora.C09.Model Aurora.C09.Proofs Aurora.C09.Partition Aurora.C09.Final.
+Require Import Aurora.Consts Aurora.C09.Model Aurora.C09.Proofs Aurora.C09.Partition Aurora.C09.Final Aurora.C09.ManifestFull.
 Local Open Scope Z_scope.
 
 Definition params_of (enc : bool) : params :=
@@ -68,10 +68,41 @@ Theorem C09_partition : forall (enc : bool) (L : nat) (t : tree),
 Proof. intros enc. exact (partition_gen (params_of enc) (consts_ok_C09 enc)). Qed.
 Print Assumptions C09_partition.
 
-(** a manifest: traversal = the chunks of every file of the trie (node files
-    and the files value nodes point to), pyramid = their pyramids.  Partial: the
-    trie [m] is what the mantaray loader produced from the stored nodes; the
-    loader (a dependency outside the repository) is not modelled. *)
+(** a manifest inside the domain the mantaray model of C10 proves (every history of
+    add / remove / lookup / hasPrefix / store / reload in [in_proved_domain] = C10's
+    [disciplined], once it has been stored; no collision among the saved node payloads;
+    any content-address function [addr] with 32-byte output, any obfuscation key):
+    a fresh reference to the stored address loads completely ([loads_to]: WalkNode's
+    lazy loading over C10's byte-level decoder, for every recursion budget from [F0] on);
+    the references IterateAddresses hands to the file traversal are exactly the addresses
+    of the saved node payloads and the non-zero references of the directory ([dir_spec] =
+    the last entry written per path); and if each of them is the root of a well-formed file
+    whose chunks are in the collision-free chunk store, Traverse / GetPyramid report exactly
+    those files' chunks / pyramids.  [rid] translates reference bytes into the chunk model's
+    references (arbitrary). *)
+Theorem C09_manifest : forall (enc : bool) (rid : list N -> ref) (addr : list N -> list N) (kg : list N),
+  (forall d, length (addr d) = 32%nat) -> length kg = 32%nat ->
+  forall (menc : bool) (h : MT.history) (a : list N),
+  MT.in_proved_domain h -> MT.payloads_collision_free addr kg menc h -> MT.stored_at addr kg menc h = Some a ->
+  exists F0 : nat, forall F : nat, (F0 <= F)%nat -> exists m : mnode,
+    MT.loads_to rid addr kg menc h F a m /\
+    (forall r, In r (mrefs m) <->
+       (exists b, In b (MT.payloads addr kg menc h) /\ r = rid (addr b)) \/
+       (exists q e md, MT.dir_spec h q = Some (e, md) /\ MT.all_zero e = false /\ r = rid e)) /\
+    forall (L : nat) (st : store) (files : ref -> tree),
+      (L <= depth_fuel)%nat -> NoCollisionAmong st ->
+      (forall r, In r (mrefs m) ->
+         tref (files r) = r /\ wf_file (params_of enc) L (files r) = true /\ incl (entries (params_of enc) (files r)) st) ->
+      traverse_manifest (params_of enc) st m = LDone (flat_map (fun r => written (files r)) (mrefs m)) /\
+      pyramid_manifest (params_of enc) st m = LDone (flat_map (fun r => pyramid_of (files r)) (mrefs m)).
+Proof. intros enc. exact (manifest_full_gen (params_of enc) (consts_ok_C09 enc)). Qed.
+Print Assumptions C09_manifest.
+
+(** outside that domain (histories C10 excludes because the dependency misbehaves there:
+    removal of a prefix path, metadata overwrite with empty metadata, add/remove after a
+    Store; encrypted 64-byte file references; the empty path): the loaded trie [erase m] is
+    taken as given, whatever the loader produced, and the traversal is the concatenation
+    over it.  Partial: nothing is claimed about what the loader produces there. *)
 Theorem C09_manifest_partial : forall (enc : bool) (L : nat) (m : mspec) (st : store),
   (L <= depth_fuel)%nat -> NoCollisionAmong st ->
   (forall t, In t (mfiles m) -> wf_file (params_of enc) L t = true /\ incl (entries (params_of enc) t) st) ->
@@ -112,3 +143,17 @@ Example C09_hyps_satisfiable_deep :
   chunk_hashes_file small (entries small deep_tree) (tref deep_tree) = LDone (leaves deep_tree) /\
   pyramid_file small (entries small deep_tree) (tref deep_tree) = LDone (inner deep_tree).
 Proof. vm_compute. repeat split; try reflexivity; intro H; discriminate H. Qed.
+
+(** (3) the manifest theorem's hypotheses: a directory of two files (one with metadata) built
+    and stored under C10's toy address function lies in the proved domain, its three node
+    payloads do not collide, and the stored manifest loads into a trie with three node
+    references and two entry references. *)
+Example C09_manifest_hyps_satisfiable :
+  MT.in_proved_domain MT.ex_history /\
+  (forall d, length (Aurora.C10.Spec.toy_addr d) = 32%nat) /\ length Aurora.C10.Refute.zkey = 32%nat /\
+  MT.payloads_collision_free Aurora.C10.Spec.toy_addr Aurora.C10.Refute.zkey false MT.ex_history /\
+  exists a m, MT.stored_at Aurora.C10.Spec.toy_addr Aurora.C10.Refute.zkey false MT.ex_history = Some a /\
+    MT.loads_to MT.ex_rid Aurora.C10.Spec.toy_addr Aurora.C10.Refute.zkey false MT.ex_history 4 a m /\
+    length (self_refs m) = 3%nat /\ length (entry_refs m) = 2%nat /\
+    length (MT.payloads Aurora.C10.Spec.toy_addr Aurora.C10.Refute.zkey false MT.ex_history) = 3%nat.
+Proof. exact (conj MT.ex_history_ok MT.ex_history_facts). Qed.
